@@ -24,8 +24,18 @@ var c08Authors = []string{vk.FakePub(800), vk.FakePub(801)}
 func c08Filters(r *rand.Rand, base int64) []*mocrelay.ReqFilter {
 	mk := func() *mocrelay.ReqFilter {
 		f := &mocrelay.ReqFilter{}
-		switch r.IntN(6) {
+		switch r.IntN(7) {
 		case 0:
+		case 6:
+			// a list that is present and empty matches nothing (it is not the same as absent)
+			switch r.IntN(3) {
+			case 0:
+				f.IDs = []string{}
+			case 1:
+				f.Authors = []string{}
+			default:
+				f.Kinds = []int64{}
+			}
 		case 5:
 			// two tag conditions: both must be met, however often an event meets one of them
 			f.Tags = map[string][]string{"t": {"v1", "v2"}, "p": {c08Authors[0]}}
@@ -133,54 +143,73 @@ func TestVerif_C08(t *testing.T) {
 					sub = fmt.Sprintf("s%d", q)
 				}
 				free[sub] = false
-				g := &mGen{sub: sub, filters: c08Filters(r, base), plans: make([]mPlan, nch), closeRecv: make([]int64, nch), closed: make([]atomic.Bool, nch)}
-				// shared pool of stored events for this generation
-				pool := make([]*mocrelay.Event, 2+r.IntN(6))
-				for k := range pool {
-					evn++
-					pool[k] = c08Event(r, fmt.Sprintf("stored-%d-%d", i, evn), base)
-				}
-				for c := 0; c < nch; c++ {
-					p := mPlan{delaySeed: r.Uint64(), ignoreClos: r.IntN(2) == 0}
-					if nch <= 6 && r.IntN(14) == 0 {
-						p.refuse = true // this child answers CLOSED: the merged EOSE can never be due
-						g.refused = true
-					}
-					ns := r.IntN(6)
-					for k := 0; k < ns; k++ {
-						ev := vk.Pick(r, pool)
-						if r.IntN(2) == 0 {
-							// the same event as another Go object (each child decoded it itself)
-							ev = vk.CloneEvent(ev)
-						}
-						p.stored = append(p.stored, ev)
-					}
-					if r.IntN(3) != 0 { // well-behaved child: newest first, no duplicates
-						sort.SliceStable(p.stored, func(a, b int) bool { return p.stored[a].CreatedAt > p.stored[b].CreatedAt })
-					}
-					nl := r.IntN(5)
-					for k := 0; k < nl; k++ {
+				build := func(sub string) (*mGen, *mocrelay.ClientReqMsg) {
+					g := &mGen{sub: sub, filters: c08Filters(r, base), plans: make([]mPlan, nch), closeRecv: make([]int64, nch), closed: make([]atomic.Bool, nch)}
+					// shared pool of stored events for this generation
+					pool := make([]*mocrelay.Event, 2+r.IntN(6))
+					for k := range pool {
 						evn++
-						p.live = append(p.live, c08Event(r, fmt.Sprintf("live-%d-c%d-%d", i, c, evn), base))
+						pool[k] = c08Event(r, fmt.Sprintf("stored-%d-%d", i, evn), base)
 					}
-					g.plans[c] = p
-				}
-				g.left.Store(int32(nch))
-				req := &mocrelay.ClientReqMsg{SubscriptionID: sub, ReqFilters: g.filters}
-				w.mu.Lock()
-				w.gens[req] = g
-				w.bySub[sub] = append(w.bySub[sub], g)
-				w.mu.Unlock()
-				for _, o := range gens {
-					if o.sub == sub {
-						g.prev = append(g.prev, o)
+					for c := 0; c < nch; c++ {
+						p := mPlan{delaySeed: r.Uint64(), ignoreClos: r.IntN(2) == 0}
+						if nch <= 6 && r.IntN(14) == 0 {
+							p.refuse = true // this child answers CLOSED: the merged EOSE can never be due
+							g.refused = true
+						}
+						ns := r.IntN(6)
+						for k := 0; k < ns; k++ {
+							ev := vk.Pick(r, pool)
+							if r.IntN(2) == 0 {
+								// the same event as another Go object (each child decoded it itself)
+								ev = vk.CloneEvent(ev)
+							}
+							p.stored = append(p.stored, ev)
+						}
+						if r.IntN(3) != 0 { // well-behaved child: newest first, no duplicates
+							sort.SliceStable(p.stored, func(a, b int) bool { return p.stored[a].CreatedAt > p.stored[b].CreatedAt })
+						}
+						nl := r.IntN(5)
+						for k := 0; k < nl; k++ {
+							evn++
+							p.live = append(p.live, c08Event(r, fmt.Sprintf("live-%d-c%d-%d", i, c, evn), base))
+						}
+						g.plans[c] = p
 					}
+					g.left.Store(int32(nch))
+					req := &mocrelay.ClientReqMsg{SubscriptionID: sub, ReqFilters: g.filters}
+					w.mu.Lock()
+					w.gens[req] = g
+					w.bySub[sub] = append(w.bySub[sub], g)
+					w.mu.Unlock()
+					for _, o := range gens {
+						if o.sub == sub {
+							g.prev = append(g.prev, o)
+						}
+					}
+					gens = append(gens, g)
+					return g, req
 				}
-				gens = append(gens, g)
+				g, req := build(sub)
+				// one time in three a second REQ with an id of its own is pending at the same time
+				// in the same session (its stream is judged like any other)
+				var g2 *mGen
+				var req2 *mocrelay.ClientReqMsg
+				if r.IntN(3) == 0 {
+					g2, req2 = build(fmt.Sprintf("k%d", q))
+					rep.Count("sessions_with_two_pending_reqs", 1)
+				}
 				g.reqCall = vk.Tick()
 				if !cl.s.Put(req) {
 					fail("session/stalled", "the merged handler did not take a REQ", g)
 					return
+				}
+				if g2 != nil {
+					g2.reqCall = vk.Tick()
+					if !cl.s.Put(req2) {
+						fail("session/stalled", "the merged handler did not take a REQ", g2)
+						return
+					}
 				}
 				closeMode := r.IntN(10) // 0,1: close early; 2: close after EOSE; else no close
 				if closeMode < 2 {
@@ -192,10 +221,10 @@ func TestVerif_C08(t *testing.T) {
 				}
 				// wait until the children are through with this generation
 				deadline := time.Now().Add(vk.WaitBound)
-				for g.left.Load() > 0 && time.Now().Before(deadline) {
+				for (g.left.Load() > 0 || (g2 != nil && g2.left.Load() > 0)) && time.Now().Before(deadline) {
 					time.Sleep(100 * time.Microsecond)
 				}
-				if g.left.Load() > 0 {
+				if g.left.Load() > 0 || (g2 != nil && g2.left.Load() > 0) {
 					// a violation only with a witness: a child goroutine parked in its channel send
 					blocked := ""
 					for _, gr := range vk.Goroutines() {
@@ -219,81 +248,87 @@ func TestVerif_C08(t *testing.T) {
 					cl.s.Put(&mocrelay.ClientCloseMsg{SubscriptionID: sub})
 					cl.barrier(fmt.Sprintf("barrier2-%d", q))
 				}
-				// judge this generation now (receipts since reqCall for this sub id)
-				collect := func() []rRecv {
-					var mine []rRecv
-					for _, x := range cl.snapshot() {
-						if x.at < g.reqCall {
-							continue
-						}
-						switch m := x.msg.(type) {
-						case *mocrelay.ServerEventMsg:
-							if m.SubscriptionID == sub {
-								mine = append(mine, x)
+				judgeGen := func(g *mGen) bool {
+					// judge this generation now (receipts since reqCall for this sub id)
+					collect := func() []rRecv {
+						var mine []rRecv
+						for _, x := range cl.snapshot() {
+							if x.at < g.reqCall {
+								continue
 							}
-						case *mocrelay.ServerEOSEMsg:
-							if m.SubscriptionID == sub {
-								mine = append(mine, x)
+							switch m := x.msg.(type) {
+							case *mocrelay.ServerEventMsg:
+								if m.SubscriptionID == g.sub {
+									mine = append(mine, x)
+								}
+							case *mocrelay.ServerEOSEMsg:
+								if m.SubscriptionID == g.sub {
+									mine = append(mine, x)
+								}
 							}
 						}
+						return mine
 					}
-					return mine
+					// The COUNT barrier bounds what is in flight only if replies of different kinds
+					// leave in one order, which no statement fixes. Something that is due but absent
+					// is therefore waited for (the wait ends when it arrives) before it is called
+					// missing; once three violations are recorded the wait is cut short.
+					mine := collect()
+					for grace := time.Now().Add(vk.WaitBound / 2); ; {
+						dry := ""
+						c08Judge(func(string, int64) {}, g, mine, nch, func(sig, _ string, _ *mGen) { dry = sig })
+						if (dry != "eose/missing" && dry != "post-eose/lost") || time.Now().After(grace) || rep.Violations() >= 3 {
+							break
+						}
+						select {
+						case <-cl.notify:
+						case <-time.After(time.Millisecond):
+						}
+						mine = collect()
+					}
+					rep.Eval(1)
+					sig, cls := c08Judge(rep.Count, g, mine, nch, fail)
+					if sig != "" {
+						return false
+					}
+					withEvents := 0
+					for _, p := range g.plans {
+						if len(p.stored)+len(p.live) > 0 {
+							withEvents++
+						}
+					}
+					if withEvents >= 2 {
+						// the interleaving of child emissions as the client side saw it
+						g.mu.Lock()
+						es := append([]mEmit{}, g.emits...)
+						g.mu.Unlock()
+						sort.SliceStable(es, func(a, b int) bool { return es[a].call < es[b].call })
+						key := fmt.Sprintf("%d/%s/", nch, cls)
+						for _, e := range es {
+							if _, is := e.msg.(*mocrelay.ServerEOSEMsg); is {
+								key += fmt.Sprintf("E%d", e.child)
+							} else {
+								key += fmt.Sprintf("e%d", e.child)
+							}
+						}
+						rep.Nontrivial(key)
+					}
+					rep.Seen("generation_classes", fmt.Sprintf("%d/%s", nch, cls))
+					// the id may be reused only if its EOSE was received
+					for _, x := range mine {
+						if _, is := x.msg.(*mocrelay.ServerEOSEMsg); is {
+							free[g.sub] = true
+						}
+					}
+					if q == 0 && rep.WantSample() {
+						g.mu.Lock()
+						rep.Sample(map[string]any{"children": nch, "filters": vk.JSON(g.filters), "child_emissions": describeEmits(g.emits), "client_received": describeRecv(mine)})
+						g.mu.Unlock()
+					}
+					return true
 				}
-				// The COUNT barrier bounds what is in flight only if replies of different kinds
-				// leave in one order, which no statement fixes. Something that is due but absent
-				// is therefore waited for (the wait ends when it arrives) before it is called
-				// missing; once three violations are recorded the wait is cut short.
-				mine := collect()
-				for grace := time.Now().Add(vk.WaitBound / 2); ; {
-					dry := ""
-					c08Judge(func(string, int64) {}, g, mine, nch, func(sig, _ string, _ *mGen) { dry = sig })
-					if (dry != "eose/missing" && dry != "post-eose/lost") || time.Now().After(grace) || rep.Violations() >= 3 {
-						break
-					}
-					select {
-					case <-cl.notify:
-					case <-time.After(time.Millisecond):
-					}
-					mine = collect()
-				}
-				rep.Eval(1)
-				sig, cls := c08Judge(rep.Count, g, mine, nch, fail)
-				if sig != "" {
+				if !judgeGen(g) || (g2 != nil && !judgeGen(g2)) {
 					return
-				}
-				withEvents := 0
-				for _, p := range g.plans {
-					if len(p.stored)+len(p.live) > 0 {
-						withEvents++
-					}
-				}
-				if withEvents >= 2 {
-					// the interleaving of child emissions as the client side saw it
-					g.mu.Lock()
-					es := append([]mEmit{}, g.emits...)
-					g.mu.Unlock()
-					sort.SliceStable(es, func(a, b int) bool { return es[a].call < es[b].call })
-					key := fmt.Sprintf("%d/%s/", nch, cls)
-					for _, e := range es {
-						if _, is := e.msg.(*mocrelay.ServerEOSEMsg); is {
-							key += fmt.Sprintf("E%d", e.child)
-						} else {
-							key += fmt.Sprintf("e%d", e.child)
-						}
-					}
-					rep.Nontrivial(key)
-				}
-				rep.Seen("generation_classes", fmt.Sprintf("%d/%s", nch, cls))
-				// the id may be reused only if its EOSE was received
-				for _, x := range mine {
-					if _, is := x.msg.(*mocrelay.ServerEOSEMsg); is {
-						free[sub] = true
-					}
-				}
-				if q == 0 && rep.WantSample() {
-					g.mu.Lock()
-					rep.Sample(map[string]any{"children": nch, "filters": vk.JSON(g.filters), "child_emissions": describeEmits(g.emits), "client_received": describeRecv(mine)})
-					g.mu.Unlock()
 				}
 			}
 		}
